@@ -94,6 +94,8 @@ func kmsLock(kind string, masterKey []byte, pass string) (secretlock.Service, er
 	switch kind {
 	case "raw":
 		return local.NewService(strings.NewReader(base64.URLEncoding.EncodeToString(masterKey)), nil)
+	case "rawbin": // the master key as raw bytes (not base64url text)
+		return local.NewService(bytes.NewReader(masterKey), nil)
 	case "hkdf", "pbkdf2":
 		var ml secretlock.Service
 		var err error
@@ -115,7 +117,7 @@ func kmsLock(kind string, masterKey []byte, pass string) (secretlock.Service, er
 func kmsOpen(kind string, st *recKMSStore, masterKey []byte, pass, cipher string) (*localkms.LocalKMS, string, error) {
 	var lock secretlock.Service
 	var err error
-	if kind == "raw" {
+	if kind == "raw" || kind == "rawbin" {
 		lock, err = kmsLock(kind, masterKey, pass)
 		if err != nil {
 			return nil, "", err
@@ -137,8 +139,62 @@ func kmsOpen(kind string, st *recKMSStore, masterKey []byte, pass, cipher string
 			return nil, cipher, err
 		}
 	}
-	k, err := localkms.New("local-lock://verif", kmsProv{st, lock})
+	k, err := localkms.New("local-lock://verif", kmsProv{st, &recLock{Service: lock}})
 	return k, cipher, err
+}
+
+// recLock records what the secret lock hands out, for the keystream-reuse test
+type recLock struct {
+	secretlock.Service
+}
+
+var lockOutputs [][]byte
+
+func (l *recLock) Encrypt(keyURI string, req *secretlock.EncryptRequest) (*secretlock.EncryptResponse, error) {
+	resp, err := l.Service.Encrypt(keyURI, req)
+	if err == nil {
+		if b, e := base64.URLEncoding.DecodeString(resp.Ciphertext); e == nil {
+			lockOutputs = append(lockOutputs, b)
+		} else {
+			lockOutputs = append(lockOutputs, []byte(resp.Ciphertext))
+		}
+	}
+	return resp, err
+}
+
+// lockReuse: two outputs of a sound AEAD never share a nonce, and the XOR of two of them is not the XOR of two texts
+// (all bytes below 0x80 over 32+ bytes has probability 2^-32 for independent key streams).
+func lockReuse() string {
+	outs := lockOutputs
+	if len(outs) > 48 {
+		outs = outs[:48]
+	}
+	for i := 0; i < len(outs); i++ {
+		for j := i + 1; j < len(outs); j++ {
+			a, b := outs[i], outs[j]
+			n := len(a)
+			if len(b) < n {
+				n = len(b)
+			}
+			if n < 44 {
+				continue
+			}
+			if bytes.Equal(a[:12], b[:12]) {
+				return "REUSED-NONCE"
+			}
+			low := true
+			for k := 12; k < n-16; k++ {
+				if (a[k]^b[k])&0x80 != 0 {
+					low = false
+					break
+				}
+			}
+			if low {
+				return "REUSED-KEYSTREAM"
+			}
+		}
+	}
+	return "ok"
 }
 
 // secrets extracts the private / symmetric key bytes of a handle (harness side only: cleartext export of Tink)
@@ -328,6 +384,7 @@ func kmsRun(input string, c06 bool) string {
 	if len(parts) == 3 && strings.HasPrefix(parts[2], "crash=") {
 		crash, _ = strconv.Atoi(strings.TrimPrefix(parts[2], "crash="))
 	}
+	lockOutputs = nil
 	masterKey := bytes.Repeat([]byte{0x5a}, 32)
 	for i := range masterKey {
 		masterKey[i] ^= byte(i * 7)
@@ -468,13 +525,14 @@ func kmsRun(input string, c06 bool) string {
 			secrets = append(secrets, masterKey)
 		}
 		scan := kmsScan(secrets, hay)
+		reuse := lockReuse()
 		// a key manager opened with the wrong master key / passphrase must not yield any key
 		wrong := "allfail"
 		st2 := &recKMSStore{data: st.data, freezeAt: -1}
 		otherKey := bytes.Repeat([]byte{0x11}, 32)
 		var k2 *localkms.LocalKMS
 		var e2 error
-		if parts[0] == "raw" {
+		if parts[0] == "raw" || parts[0] == "rawbin" {
 			k2, _, e2 = kmsOpen(parts[0], st2, otherKey, "", "")
 		} else {
 			k2, _, e2 = kmsOpen(parts[0], st2, nil, "wrong passphrase", cipher)
@@ -487,7 +545,7 @@ func kmsRun(input string, c06 bool) string {
 				}
 			}
 		}
-		return strings.Join(outs, " ") + fmt.Sprintf(" || puts=%d secrets=%d scan=%s wrongmaster=%s", len(st.puts), len(secrets), scan, wrong)
+		return strings.Join(outs, " ") + fmt.Sprintf(" || puts=%d secrets=%d scan=%s wrongmaster=%s lock=%s", len(st.puts), len(secrets), scan, wrong, reuse)
 	}
 	// C06: reopen a fresh key manager over the surviving store and probe every key
 	st.freezeAt = -1
@@ -528,7 +586,7 @@ func kmsGen(r *Rng, tier string, c06 bool) []string {
 		n = 12000
 	}
 	kts := []string{"ed25519", "p256der", "p256", "p384", "p521", "x25519kw", "p256kw", "aes256gcm", "hmac", "chacha", "bbs", "secp256k1"}
-	locks := []string{"raw", "hkdf", "pbkdf2"}
+	locks := []string{"raw", "rawbin", "hkdf", "pbkdf2"}
 	var out []string
 	for i := 0; i < n; i++ {
 		var ops []string
